@@ -239,12 +239,22 @@ def run(tier, seed):
         "samples": sample, "pinned_disk_reads": pinned_reads, "pin_trace_events": pin_events,
         "stalled_schedules": st["stalls"],
     }
+    # story: the TTL of an offloaded value is renewed AGAIN while the write-behind worker has the first renewal's
+    # generation in hand (both renewals borrow bytes that live only in the predecessor's extent): reads keep returning
+    # the value, the key stays in range scans, every flush succeeds, the expiry after the reopen is the second renewal's
+    import seqengine as _sq
+    _sv, _sn, _sst = _sq.run_stories(PROP, fxv, rd, "renewstory", 2 if tier == "quick" else 8,
+                                     "TTL renewed twice while the first renewal was being written")
+    viol = viol + _sv
     return {"level": "model_checking", "coverage": cov, "violations": viol,
             "assumptions": ["pin / unpin / pread / write-begin / write-end events are logged strictly inside the "
                             "real intervals (hooks)", "background flush workers run unsteered"]}
 
 
 def replay(path):
+    import seqengine as _sq
+    if _sq.is_story(path):
+        return _sq.replay_story(PROP, path)
     rd = v.run_dir("c08_replay")
     if path.endswith(".pin.ndjson"):
         r = run_pin(rd, path)
